@@ -98,6 +98,10 @@ fn part_entry_points(thorough: bool) -> Acc {
     let mut docs = crate::checks::lang::eval_panel();
     docs.extend(crate::gen::docs::panel());
     docs.push(json!({"a b": 1, "a  b": 2, " ": 4, "  ": 5, "s": "a  b", "t": "a b", "arr": [{"k": "x y"}, {"k": "x  y"}]}));
+    docs.extend(crate::gen::docs::deep_docs(false).into_iter().skip(9).step_by(5).take(4));
+    for n in [64usize, 65, 257] {
+        docs.push(Value::Array((0..n).map(|i| if i % 4 == 0 { json!({"a": i, "b": [i]}) } else { json!(i % 3) }).collect()));
+    }
     let docs: Vec<(Value, AddrMap)> = docs
         .into_iter()
         .map(|d| {
